@@ -150,16 +150,51 @@ fn build_walk(data: &Value, choices: &[u16], neg: &[bool], perturb: u8) -> Walk 
                 w.found = None;
             }
             (3, Some(_), _) => {
-                w.comps[last] = "x".to_string(); // not an integer
+                // not an integer: plain words and the property names other languages answer on arrays and strings
+                // (JavaScript's `length`, `constructor`, `__proto__`; Python / Ruby style `len`, `size`, `first`, `last`)
+                const WORDS: &[&str] = &["x", "length", "__proto__", "constructor", "toString", "size", "len", "count", "first", "last", "keys", "NaN", "Infinity", "null", "true", "-"];
+                w.comps[last] = WORDS[choices.iter().map(|c| *c as usize).sum::<usize>() % WORDS.len()].to_string();
                 w.found = None;
             }
             (_, None, Value::Object(m)) => {
-                let mut k = format!("{}~missing", w.comps[last]);
+                // an absent key: usually a decorated neighbour of a present one, sometimes a name that objects answer to
+                // in other languages although it is not a key of this one
+                const NAMES: &[&str] = &["length", "__proto__", "constructor", "hasOwnProperty", "toString", "valueOf", "keys", "size"];
+                let pick = choices.iter().map(|c| *c as usize).sum::<usize>();
+                let mut k = if perturb >= 3 && !m.contains_key(NAMES[pick % NAMES.len()]) { NAMES[pick % NAMES.len()].to_string() } else { format!("{}~missing", w.comps[last]) };
                 while m.contains_key(&k) {
                     k.push('~');
                 }
                 w.comps[last] = k;
                 w.found = None;
+            }
+            (4, Some(_), _) if last >= 1 && !w.comps[last - 1].is_empty() && !w.comps[last].starts_with('-') => {
+                // other path syntaxes for the same place are just absent keys here: `xs[0]`, `xs/0`, `xs->0`, `xs:0`
+                let idx = w.comps.pop().unwrap_or_default();
+                let key = w.comps.pop().unwrap_or_default();
+                let pick = choices.iter().map(|c| *c as usize).sum::<usize>() % 4;
+                let merged = match pick {
+                    0 => format!("{}[{}]", key, idx),
+                    1 => format!("{}/{}", key, idx),
+                    2 => format!("{}->{}", key, idx),
+                    _ => format!("{}:{}", key, idx),
+                };
+                // the merged text must not happen to be a key of the grandparent
+                let mut gp = data.clone();
+                for c in &w.comps {
+                    gp = match &gp {
+                        Value::Object(m) => m.get(c).cloned().unwrap_or(Value::Null),
+                        Value::Array(a) => c.parse::<i64>().ok().and_then(|i| a.get(if i < 0 { (a.len() as i64 + i) as usize } else { i as usize }).cloned()).unwrap_or(Value::Null),
+                        _ => Value::Null,
+                    };
+                }
+                if gp.get(&merged).is_none() && gp.is_object() {
+                    w.comps.push(merged);
+                    w.found = None;
+                } else {
+                    w.comps.push(key);
+                    w.comps.push(idx);
+                }
             }
             _ => {
                 // step into a scalar below the found value
